@@ -39,6 +39,8 @@ func Simple(typ string, sec int64, seq int, ses, pid, res string) Group {
 	case "LOGIN":
 		// kernel record: res=1 / res=0
 		body = fmt.Sprintf("pid=%s uid=0 subj=system_u:system_r:sshd_t:s0-s0:c0.c1023 old-auid=4294967295 auid=9999 tty=(none) old-ses=4294967295 ses=%s res=%s", pid, ses, res)
+	case "USER_CMD":
+		body = fmt.Sprintf("pid=%s uid=1000 auid=9999 ses=%s subj=unconfined_u:unconfined_r:unconfined_t:s0-s0:c0.c1023 msg='cwd=\"/home/someone\" cmd=2E2F6D657472696362656174202D63206D622E6465762E796D6C terminal=pts/0 res=%s'", pid, ses, res)
 	default:
 		body = fmt.Sprintf("pid=%s uid=0 auid=9999 ses=%s subj=system_u:system_r:sshd_t:s0-s0:c0.c1023 msg='op=PAM:session_open grantors=pam_unix acct=\"someone\" exe=\"/usr/sbin/sshd\" hostname=10.0.0.1 addr=10.0.0.1 terminal=ssh res=%s'", pid, ses, res)
 	}
